@@ -197,16 +197,22 @@ func registerCrypto() {
 		if err != nil {
 			return clsSkip, ""
 		}
-		_, err = aeskw.Wrap(b, unhx(a["data"]))
-		return errClass(err)
+		out, err := aeskw.Wrap(b, unhx(a["data"]))
+		if err != nil {
+			return clsErr, ""
+		}
+		return clsOK, strconv.Itoa(len(out))
 	})
 	register("aeskw-unwrap", "aeskw.Unwrap(block, wrapped)", func(a map[string]string) (string, string) {
 		b, err := aes.NewCipher(unhx(a["kek"]))
 		if err != nil {
 			return clsSkip, ""
 		}
-		_, err = aeskw.Unwrap(b, unhx(a["data"]))
-		return errClass(err)
+		out, err := aeskw.Unwrap(b, unhx(a["data"]))
+		if err != nil {
+			return clsErr, ""
+		}
+		return clsOK, strconv.Itoa(len(out))
 	})
 	register("pkcs7-pad", "padding.PadPKCS7(buf, size)", func(a map[string]string) (string, string) {
 		n, _ := strconv.Atoi(a["size"])
@@ -369,7 +375,7 @@ func genCrypto(r *runner) {
 				r.do(mk("crypto-decryptsymmetric", "alg", alg, "key", ks, "data", hx(ct), "nonce", hx(mutate(r.rnd, nonce, []byte{0, 255})), "tag", hx(tag), "aad", hx(aad)))
 			}
 			if strings.HasSuffix(alg, "KW") && len(ct) > 0 {
-				r.do(mk("aeskw-unwrap", "kek", hx(octKeys[kl]), "data", hx(ct)))
+				r.doKW(mk("aeskw-unwrap", "kek", hx(octKeys[kl]), "data", hx(ct)), len(ct))
 				for i := 0; i < r.n(6); i++ {
 					r.do(mk("aeskw-unwrap", "kek", hx(octKeys[kl]), "data", hx(mutate(r.rnd, ct, []byte{0xa6, 0, 255}))))
 				}
@@ -481,8 +487,8 @@ func genCrypto(r *runner) {
 	// --- key wrap: every length 0..64 (and a few longer), every KEK size ---
 	for _, kl := range []int{16, 24, 32} {
 		for n := 0; n <= 80; n++ {
-			r.do(mk("aeskw-unwrap", "kek", hx(octKeys[kl]), "data", hx(r.rnd.Bytes(n))))
-			r.do(mk("aeskw-wrap", "kek", hx(octKeys[kl]), "data", hx(r.rnd.Bytes(n))))
+			r.doKW(mk("aeskw-unwrap", "kek", hx(octKeys[kl]), "data", hx(r.rnd.Bytes(n))), n)
+			r.doM("kwwrap n="+strconv.Itoa(n), mk("aeskw-wrap", "kek", hx(octKeys[kl]), "data", hx(r.rnd.Bytes(n))))
 			r.do(mk("aeskw-unwrap", "kek", hx(octKeys[kl]), "data", hx(make([]byte, n))))
 		}
 	}
@@ -533,4 +539,18 @@ func genCrypto(r *runner) {
 		}
 	}
 	r.res.Hit(fmt.Sprintf("crypto:keys-of-every-kind:%d", len(keys)))
+}
+
+// doKW: aeskw.Unwrap against the length-level Lean model; the integrity comparison's result is the
+// one thing the lengths do not determine, so it is taken from the implementation's outcome.
+func (r *runner) doKW(c Case, n int) {
+	o := r.do(c)
+	if o.Class == clsSkip {
+		return
+	}
+	intact := "0"
+	if o.Class == clsOK {
+		intact = "1"
+	}
+	r.model = append(r.model, modelCase{Line: "kwunwrap n=" + strconv.Itoa(n) + " intact=" + intact, C: c, want: wantOf(o)})
 }
